@@ -101,6 +101,66 @@ def load_known():
         return json.load(fh)["findings"]
 
 
+def _evaluate(prop, world, tier):
+    """run the property's rules on a world; returns (ctx, mod)"""
+    ctx = Ctx(prop, world, tier)
+    mod = importlib.import_module("mpcheck.rules.%s" % prop.lower())
+    try:
+        mod.run(ctx)
+    except Exception:
+        ctx.inst("engine", "undetermined:exception", False, "", traceback.format_exc()[-1500:])
+    by_rule = {}
+    for i in ctx.insts:
+        by_rule.setdefault(i.rule, []).append(i)
+    for rid, floor in ctx.floors.items():
+        n = len([i for i in by_rule.get(rid, []) if "anchor-lost" not in i.key])
+        if n < floor:
+            ctx.inst(rid, "floor", False, "", "rule %s enumerated %d instances, floor is %d" % (rid, n, floor))
+    return ctx, mod
+
+
+def _validate_one(args):
+    """worker: apply one patch to a scratch copy of the repo, regenerate facts, evaluate the rules"""
+    prop, patch, repo = args
+    import shutil
+    import subprocess
+    import tempfile
+    sys.setrecursionlimit(20000)
+    tmp = tempfile.mkdtemp(prefix="mpcheck_selfval_")
+    try:
+        dst = os.path.join(tmp, "repo")
+        shutil.copytree(repo, dst, ignore=shutil.ignore_patterns("target", ".git"))
+        r = subprocess.run(["patch", "-p1", "-s", "-i", patch], cwd=dst, stdout=subprocess.PIPE, stderr=subprocess.STDOUT, text=True)
+        if r.returncode != 0:
+            return {"patch": os.path.relpath(patch, VERIF), "status": "does-not-apply"}
+        try:
+            d, h, secs = facts.ensure_facts(dst)
+        except facts.AnalysisError as e:
+            return {"patch": os.path.relpath(patch, VERIF), "status": "does-not-compile", "detail": str(e)[-300:]}
+        world = facts.World(d)
+        world.tree_hash = h
+        world.gen_seconds = secs
+        ctx, _mod = _evaluate(prop, world, "quick")
+        known = {k["key"] for k in load_known() if k.get("property") == prop and k.get("status") == "open"}
+        keys = sorted(i.key for i in ctx.insts if not i.ok and i.key not in known)
+        return {"patch": os.path.relpath(patch, VERIF), "status": "caught" if keys else "ESCAPED", "violated": keys[:6]}
+    finally:
+        shutil.rmtree(tmp, ignore_errors=True)
+
+
+def self_validation(prop):
+    """thorough tier: every stored mutant / seeded change of this property must be reported"""
+    import glob
+    from concurrent.futures import ProcessPoolExecutor
+    patches = sorted(glob.glob(os.path.join(VERIF, "mutants", prop, "*.patch")))
+    patches += sorted(glob.glob(os.path.join(VERIF, "seeded", prop + "*", "patch.diff")))
+    if not patches:
+        return []
+    jobs = [(prop, p, facts.REPO) for p in patches]
+    with ProcessPoolExecutor(max_workers=4) as ex:
+        return list(ex.map(_validate_one, jobs))
+
+
 def run_property(prop, tier="quick", replay=None):
     t0 = time.time()
     seed = int(os.environ.get("VERIF_SEED", "0") or 0)
@@ -109,21 +169,13 @@ def run_property(prop, tier="quick", replay=None):
     except facts.AnalysisError as e:
         print("ANALYSIS-ERROR property=%s %s" % (prop, e))
         return 2
-    ctx = Ctx(prop, world, tier)
-    mod = importlib.import_module("mpcheck.rules.%s" % prop.lower())
-    try:
-        mod.run(ctx)
-    except Exception:
-        traceback.print_exc()
-        ctx.inst("engine", "undetermined:exception", False, "", traceback.format_exc()[-1500:])
-    # floors: a rule that finds fewer instances than were confirmed by hand fails closed
+    ctx, mod = _evaluate(prop, world, tier)
     by_rule = {}
     for i in ctx.insts:
         by_rule.setdefault(i.rule, []).append(i)
-    for rid, floor in ctx.floors.items():
-        n = len([i for i in by_rule.get(rid, []) if "anchor-lost" not in i.key])
-        if n < floor:
-            ctx.inst(rid, "floor", False, "", "rule %s enumerated %d instances, floor is %d (confirmed by hand on the pinned tree)" % (rid, n, floor))
+    selfval = None
+    if tier == "thorough" and not replay:
+        selfval = self_validation(prop)
     # known findings
     known = [k for k in load_known() if k.get("property") == prop and k.get("status") == "open"]
     known_keys = {k["key"]: k for k in known}
@@ -179,6 +231,7 @@ def run_property(prop, tier="quick", replay=None):
             "trusted_base": TRUSTED_BASE,
             "known_findings_hit": [i.key for i in known_hit],
             "not_decided": getattr(mod, "NOT_DECIDED", ""),
+            "self_validation": selfval if selfval is not None else "thorough tier only",
         },
         "assumptions": TRUSTED_BASE,
         "wall_s": round(wall, 2),
@@ -193,6 +246,12 @@ def run_property(prop, tier="quick", replay=None):
         n = len(by_rule.get(r, []))
         bad = len([i for i in by_rule.get(r, []) if not i.ok])
         print("  %-7s %3d instances (floor %d)%s  %s" % (r, n, ctx.floors.get(r, 0), (" %d FAILING" % bad) if bad else "", t[:110]))
+    if selfval is not None:
+        caught = len([x for x in selfval if x["status"] == "caught"])
+        print("  self-validation: %d/%d stored mutants and seeded changes of %s are reported on scratch copies" % (caught, len(selfval), prop))
+        for x in selfval:
+            if x["status"] != "caught":
+                print("  SELF-VALIDATION %s: %s" % (x["status"], x["patch"]))
     for i in known_hit:
         print("KNOWN-FINDING: property=%s %s — %s" % (prop, i.key, known_keys[i.key].get("what_fails", "")))
     if violations:
